@@ -366,8 +366,8 @@ func c18FeeQuoteHistory(c *mon.Ctx, h *c18Hist) {
 						rec.mu.Unlock()
 					}
 					rec.add(c18Op{proc: g, kind: "FeeQuote.Fee", key: fmt.Sprintf("fee:free%d:%s", i, t), val: id, call: call, ret: ret})
-				case 2, 3: // FeeQuote.AddQuote
-					i := r.Intn(2)
+				case 2, 3: // FeeQuote.AddQuote (only on the first free quote: the second one is written by whole documents only, see MarshalJSON below)
+					i := 0
 					id := newID()
 					if r.Bool() {
 						id |= untypedBit
@@ -418,8 +418,27 @@ func c18FeeQuoteHistory(c *mon.Ctx, h *c18Hist) {
 						}
 						rec.add(c18Op{proc: g, kind: "FeeQuote.MarshalJSON", key: fmt.Sprintf("fee:free%d:%s", i, tt), val: id, call: call, ret: ret})
 					}
+					if i == 1 { // written by whole documents only (data id = standard id + 1): a marshalled document is ONE of them
+						sid, _ := feeID(got[bt.FeeTypeStandard])
+						did, _ := feeID(got[bt.FeeTypeData])
+						if !(sid == valDefault && did == valDefault) && did != sid+1 {
+							rec.mu.Lock()
+							rec.torn = append(rec.torn, fmt.Sprintf("json.Marshal(FeeQuote) shows the standard fee of one stored document (id %d) and the data fee of another (id %d): %s", sid, did, b))
+							rec.mu.Unlock()
+						}
+					}
 				case 9: // json.Unmarshal into a free quote: a write of both fee types
 					i := r.Intn(2)
+					if r.Chance(1, 4) { // a document the decoder must refuse (unknown fee type): nothing of it may ever be read
+						x, y, z := newID(), newID(), newID()
+						doc, _ := json.Marshal(map[string]*bt.Fee{"standard": mkFee(bt.FeeTypeStandard, x), "data": mkFee(bt.FeeTypeData, y), "bogus": mkFee("", z)})
+						if err := json.Unmarshal(doc, free[i]); err == nil {
+							rec.mu.Lock()
+							rec.torn = append(rec.torn, "json.Unmarshal(FeeQuote) accepted a document with the unknown fee type \"bogus\"")
+							rec.mu.Unlock()
+						}
+						continue
+					}
 					a, b2 := newID(), newID()
 					doc, _ := json.Marshal(map[bt.FeeType]*bt.Fee{bt.FeeTypeStandard: mkFee(bt.FeeTypeStandard, a), bt.FeeTypeData: mkFee(bt.FeeTypeData, b2)})
 					call := rec.tick()
@@ -677,7 +696,10 @@ func c18Jobs(seed uint64) []c18Job {
 		{"0x04 0x05000080", "BIN2NUM -5 EQUAL"}, {"0x02 0x0102 0x01 0x03", "CAT 0x03 0x010203 EQUAL"}, {"0x03 0x010203 1", "SPLIT 0x02 0x0203 EQUALVERIFY 0x01 0x01 EQUAL"},
 		{"0x02 0x0100 8", "LSHIFT 0x02 0x0000 EQUAL"}, {"0x02 0x0001 8", "LSHIFT 0x02 0x0100 EQUAL"}, {"0x02 0x0f0f", "INVERT 0x02 0xf0f0 EQUAL"},
 		{"1 0", "IF 0 ELSE 1 ELSE 0 ENDIF"}, {"2 3", "MUL 6 EQUAL"}, {"7 2", "DIV 3 EQUAL"}, {"-7 2", "MOD -1 EQUAL"}, {"1", "TOALTSTACK 2 FROMALTSTACK ADD 3 EQUAL"},
-		{"1NEGATE", "0x01 0x81 EQUAL"}, {"16", "1ADD 17 EQUAL"}, {"0", "NOT"}, {"5", "SIZE 1 EQUALVERIFY 5 EQUAL"}, {"0x02 0x8000", "BIN2NUM 0 EQUAL"},
+		{"1NEGATE", "0x01 0x81 EQUAL"}, {"16", "1ADD 17 EQUAL"},
+		// small-integer constants widened in place by one execution must still be what they are for every other one
+		{"5 4", "NUM2BIN 0x04 0x05000000 EQUAL"}, {"6", "0x01 0x06 EQUAL"}, {"7", "0x01 0x07 EQUAL"}, {"8", "0x01 0x08 EQUAL"}, {"1 2", "NUM2BIN 0x02 0x0100 EQUAL"},
+		{"2", "0x01 0x02 EQUAL"}, {"3", "0x01 0x03 EQUAL"}, {"15 3", "NUM2BIN 0x03 0x0f0000 EQUAL"}, {"16", "0x01 0x10 EQUAL"}, {"1NEGATE 2", "NUM2BIN 0x02 0x0180 EQUAL"}, {"0", "NOT"}, {"5", "SIZE 1 EQUALVERIFY 5 EQUAL"}, {"0x02 0x8000", "BIN2NUM 0 EQUAL"},
 	} {
 		pure(sh(prog[0]), sh(prog[1]))
 	}
